@@ -80,7 +80,7 @@ def cases(tier, seed):
 
 
 def describe(tier, seed):
-    return {'rule': '2 circuits x parameter maps {node parameter, several nodes per key, several variables per key, edge '
+    return {'rule': '3 circuits (one with parallel edges addressed by index) x parameter maps {node parameter, several nodes per key, several variables per key, edge '
                     'attribute, node+edge, initial value+parameter, three keys} x grids {equal-length 2 and 3, permuted 2x2 / 2x3 / 3 / 2x3x2 / 3x2x2, DataFrame grids with permuted or sparse index labels} x '
                     'inputs {none, shared array} x vectorize x solver; for every row of the returned parameter table the '
                     'block of result columns labelled with that row key must equal a separate run of a fresh template updated '
